@@ -505,6 +505,11 @@ fn eval_func_expr(
     context: &mut model::Context,
 ) -> error::Result<model::Value> {
     let (local_part, _, uri) = context.expanded_name(func.name())?;
+    // The default namespace is not used for function names.
+    let uri = match func.name() {
+        nom::model::QName::Prefixed(_) => uri,
+        nom::model::QName::Unprefixed(_) => None,
+    };
 
     let table = func::table();
     let entry = table
@@ -992,6 +997,11 @@ fn equal_qname(
 ) -> error::Result<bool> {
     if let Some((local_part_a, _, uri_a)) = node.as_expanded_name()? {
         let (local_part_b, _, uri_b) = context.expanded_name(qname)?;
+        // The default namespace does not apply to attribute names.
+        let uri_b = match qname {
+            nom::model::QName::Unprefixed(_) if node.node_type() == dom::NodeType::Attribute => None,
+            _ => uri_b,
+        };
         Ok(local_part_a == local_part_b && uri_a == uri_b)
     } else {
         Ok(false)
